@@ -12,10 +12,12 @@ from harness import gen
 from harness.framework import Suite
 
 PID = "C20"
-READY = False
 TRANSLATE = True
 LEAN_MODS = ["SwcVerif.Props.C20"]
-THEOREMS = []
+THEOREMS = [
+    "C20.consts_pinned", "C20.save_puts_z_first", "C20.axes_roundtrip", "C20.axes_roundtrip_3d", "C20.unknown_axis", "C20.rescale_table",
+    "C20.uint_float_uint", "C20.float_uint_float", "C20.grid_covers", "C20.bbox_contains", "C20.swept_ends",
+]
 TRUSTED = ["hand-written models Model/Images.lean of the axis bookkeeping (index tuples), the rescaling decisions and the voxel grid; AXES_ORDER, UINT_MAX and "
            "the 'ZXYC' axes string are regenerated from images/io.py on every run (Gen/Consts.lean)"]
 ASSUMPTIONS = ["tifffile / pynrrd / np.save-load store and return the array they are given (exercised by real round trips, not modelled)",
